@@ -28,3 +28,7 @@ claim('C10', 'model_checking',
       '(A) CrossHair executes the real get_pyrange with symbolic start/stop (|.|<=6/9) per step of a grid and confirms over all paths that the sequence equals the Fortran DO sequence; (B) get_pyrange is re-translated from its source (ast->z3) on every run and z3 proves length and k-th element equal the Fortran trip-count semantics for unbounded start/stop per step; (C) the trees returned by num_iterations/normalized/iteration_number/iteration_index are encoded and z3 proves agreement with the visited sequence for every non-empty loop with |s|,|e|,|st|<=8.',
       'Trusted: CrossHair/z3, vlib/pyast.py translation (CPython range formulas), vlib/fsmt semantics. Steps come from a concrete grid in (A)/(B).',
       'CrossHair symbolic execution + ast->z3 translation + SMT equivalence of helper expression trees', 'E-XH', 'DESIGN.md#C10')
+claim('C09', 'model_checking',
+      'Bounded solver check: the real symbolic_op is called on every ordered pair of a stated family of integer expression trees (31 quick / 39 thorough) with all six operators; for every Boolean answer z3 searches a valuation (|n|,|m|,|k|<=8) contradicting it; sat models are replayed by concrete evaluation against the real call. Pairs for which symbolic_op raises TypeError carry no claim.',
+      'Trusted: vlib/fsmt integer semantics, z3.',
+      'SMT search (z3) for a valuation contradicting each definite answer of symbolic_op', 'E-SMT', 'DESIGN.md#C09')
